@@ -166,6 +166,10 @@ def run(rep):
         for _ in range(3 if quick else 12):
             streams.append([rng.choice(small) for _ in range(rng.choice([2, 3]))])
         streams.append([small[0], small[0]])
+        # every frame (of every message class of the unit) once FOLLOWED by another one: a frame that swallows what
+        # comes after it shows only then
+        for f in [f for f in frs if len(f) <= (400 if quick else 70000)][:24 if quick else 80]:
+            streams.append([f, small[(len(f) + len(streams)) % len(small)]])
         for frs_ in streams:
             total = sum(len(f) for f in frs_)
             scheds = schedules(total, rng, quick)
